@@ -969,9 +969,12 @@ impl<'a> World<'a> {
             return;
         }
         let mut buf = [0u8; 16];
+        // variant (m >= 64): zero-length transfers - a closed handle is a closed handle
+        let zero = m >= 64;
+        let m = m % 64;
         let (name, r): (&'static str, Got<()>) = match m % 10 {
-            0 => ("read", got(self.call(|fs| fs.read(h, &mut buf, 0).map(|_| ())))),
-            1 => ("write", got(self.call(|fs| fs.write(h, b"stale", 0)))),
+            0 => ("read", got(self.call(|fs| fs.read(h, if zero { &mut buf[..0] } else { &mut buf[..] }, 0).map(|_| ())))),
+            1 => ("write", got(self.call(|fs| fs.write(h, if zero { &b""[..] } else { &b"stale"[..] }, 0)))),
             2 => ("close_file", got(self.call(|fs| fs.close_file(h, 0)))),
             3 => ("flush_file", got(self.call(|fs| fs.flush_file(h, 0)))),
             4 => ("file_eof", got(self.call(|fs| fs.eof(h, 0).map(|_| ())))),
